@@ -677,7 +677,9 @@ pub fn run(run: &mut Run) -> Result<(), String> {
                 plan.raws.push((Box::new(CastlePlay { visitors: vec![Kind::R] }), b(if prop == "C01" { 3 } else { 2 }, 0)));
                 plan.raws.push((Box::new(RayFill { kings: vec![4, 27], max: 3 }), b(0, 0)));
                 plan.raws.push((Box::new(EpDiscover), b(d1, 0)));
+                plan.raws.push((Box::new(TwoPins { kings: vec![27, 4], kinds: vec![Kind::Q, Kind::R, Kind::B] }), b(0, 0)));
             } else {
+                plan.raws.push((Box::new(TwoPins { kings: vec![27, 4, 0, 36, 63], kinds: vec![Kind::Q, Kind::R, Kind::B, Kind::N, Kind::P] }), b(0, 0)));
                 plan.raws.push((Box::new(EpDiscover), b(d1, 0)));
                 plan.raws.push((Box::new(RayFill { kings: vec![4, 27, 0, 63, 36, 15], max: 3 }), b(d1, 0)));
                 plan.raws.push((Box::new(CastlePlay { visitors: vec![Kind::R, Kind::Q, Kind::N] }), b(if prop == "C01" { 3 } else { 2 }, 0)));
@@ -773,8 +775,10 @@ pub fn run(run: &mut Run) -> Result<(), String> {
                 plan.raws.push((Box::new(EpFile), b(0, 0)));
                 plan.raws.push((Box::new(EpCheck { second: vec![Kind::Q], files: (0..8).collect() }), b(0, 0)));
                 plan.raws.push((Box::new(RayFill { kings: vec![27], max: 3 }), b(0, 0)));
+                plan.raws.push((Box::new(TwoPins { kings: vec![27], kinds: vec![Kind::Q, Kind::R] }), b(0, 0)));
                 plan.lines = Some(b(1, 1));
             } else {
+                plan.raws.push((Box::new(TwoPins { kings: vec![27, 4], kinds: vec![Kind::Q, Kind::R, Kind::B] }), b(0, 0)));
                 plan.raws.push((Box::new(RayFill { kings: vec![4, 27, 0, 63], max: 3 }), b(0, 0)));
                 plan.raws.push((Box::new(EpCheck { second: vec![Kind::B, Kind::R, Kind::Q], files: (0..8).collect() }), b(0, 0)));
                 plan.raws.push((Box::new(Caged { inner: Box::new(CheckPin { kings: vec![15, 55] }), variants: 3, mover: true }), b(0, 0)));
